@@ -11,6 +11,10 @@ when either side knows a candidate of the other and both are checking), close() 
 a ConnectionError and emits ConnectionClosed.
 """
 import asyncio
+import fractions
+import queue as _queue
+import threading as _threading
+import time as _time
 import types
 
 import aioice
@@ -24,6 +28,7 @@ from .loop import VLoop, HarnessError
 
 _REAL_CONNECTION = ICE.Connection
 _REAL_THREADING = RX.threading
+_REAL_QUEUE = RX.queue
 
 
 class Network:
@@ -201,6 +206,114 @@ class _NoThread:
         pass
 
 
+class SyncQueue(_queue.Queue):
+    """The decoder worker's input queue, instrumented so that the harness can wait until the worker thread is idle
+    (blocked in get() with nothing outstanding).  With a wait after every event-loop step the real thread's effects
+    (run_coroutine_threadsafe) always land at the same place in the callback order: the thread is real, its timing is owned."""
+    registry = []
+
+    def __init__(self, *a, **kw):
+        super().__init__(*a, **kw)
+        self.outstanding = 0
+        self.first_get = True
+        self.worker = None
+        self.lock = _threading.Lock()
+        SyncQueue.registry.append(self)
+
+    def put(self, item, *a, **kw):
+        with self.lock:
+            self.outstanding += 1
+        super().put(item, *a, **kw)
+
+    def get(self, *a, **kw):
+        with self.lock:
+            if not self.first_get:
+                self.outstanding -= 1       # back for more: the previous item has been dealt with completely
+            self.first_get = False
+        return super().get(*a, **kw)
+
+    def busy(self):
+        return self.outstanding > 0 and self.worker is not None and self.worker.is_alive()
+
+
+class SyncThread(_threading.Thread):
+    def __init__(self, *a, **kw):
+        super().__init__(*a, **kw)
+        for x in kw.get("args", ()):
+            if isinstance(x, SyncQueue):
+                x.worker = self
+
+
+def sync_threads(max_wall=20.0):
+    """Wait (real time) until every decoder worker is idle or gone."""
+    t0 = None
+    for q in SyncQueue.registry:
+        while q.busy():
+            if t0 is None:
+                t0 = _time.monotonic()
+            elif _time.monotonic() - t0 > max_wall:
+                raise HarnessError("decoder worker still busy after %.0f s of wall time" % max_wall)
+            _time.sleep(0.0002)
+
+
+_ENCODED = {}
+
+
+def encoded_frames(kind):
+    """Three genuinely valid encoded frames (Opus / VP8 key frames), made once with the library's own encoders."""
+    import av
+    from aiortc.codecs import CODECS, depayload, get_encoder
+    if kind in _ENCODED:
+        return _ENCODED[kind]
+    codec = CODECS[kind][0]
+    enc = get_encoder(codec)
+    out = []
+    for k in range(3):
+        if kind == "audio":
+            f = av.AudioFrame(format="s16", layout="stereo", samples=960)
+            for pl in f.planes:
+                pl.update(bytes(pl.buffer_size))
+            f.sample_rate = 48000
+            f.pts = k * 960
+            f.time_base = fractions.Fraction(1, 48000)
+            payloads, ts = enc.encode(f)
+        else:
+            f = av.VideoFrame(width=64, height=48, format="yuv420p")
+            for pl in f.planes:
+                pl.update(bytes(pl.buffer_size))
+            f.pts = k * 3000
+            f.time_base = fractions.Fraction(1, 90000)
+            payloads, ts = enc.encode(f, force_keyframe=True)
+        out.append(b"".join(depayload(codec, pl) for pl in payloads))
+    _ENCODED[kind] = out
+    return out
+
+
+class PacketTrack(MediaStreamTrack):
+    """A track that produces already encoded packets on the virtual clock (20 ms audio, 40 ms video): the sender packetises
+    them with Encoder.pack() on the loop - media flows end to end without encoder executor threads."""
+
+    def __init__(self, kind):
+        super().__init__()
+        self.kind = kind
+        self.n = 0
+        self.frames = encoded_frames(kind)
+
+    async def recv(self):
+        import av
+        from aiortc.mediastreams import MediaStreamError
+        if self.readyState != "live":
+            raise MediaStreamError
+        await asyncio.sleep(0.02 if self.kind == "audio" else 0.04)
+        pkt = av.Packet(self.frames[self.n % len(self.frames)])
+        if self.kind == "audio":
+            pkt.pts, pkt.time_base = self.n * 960, fractions.Fraction(1, 48000)
+        else:
+            pkt.pts, pkt.time_base = self.n * 3600, fractions.Fraction(1, 90000)
+        self.n += 1
+        return pkt
+
+
 class PendingTrack(MediaStreamTrack):
     """A track whose recv() never completes (media flow is not this harness's business)."""
 
@@ -221,6 +334,10 @@ class PcWorld:
         ICE.Connection = FakeConnection
         if not real_decoder_thread:
             RX.threading = types.SimpleNamespace(Thread=_NoThread)
+        elif real_decoder_thread == "sync":
+            SyncQueue.registry = []
+            RX.threading = types.SimpleNamespace(Thread=SyncThread)
+            RX.queue = types.SimpleNamespace(Queue=SyncQueue)
         self.pcs = []
 
     def pc(self, configuration=None):
@@ -266,5 +383,7 @@ class PcWorld:
         finally:
             ICE.Connection = _REAL_CONNECTION
             RX.threading = _REAL_THREADING
+            RX.queue = _REAL_QUEUE
+            SyncQueue.registry = []
             _current_network = None
             self.loop.uninstall()
